@@ -246,39 +246,56 @@ def htpasswdScan : List Bytes → Bytes → Option Bytes
 
 def htpasswdGet (file user : Bytes) : Option Bytes := htpasswdScan (fileLines file) user
 
-/-- mod_authn_file_htdigest_get_loop(): (user name, binary digest) of the matching
-    "user:realm:hex[:userhash]" line.  With `userhash` the 4th field is matched and the
-    user name is taken from the file (and is what later lines are compared with). -/
+/-- what one line of an htdigest file does to the scan -/
+inductive HtdLine
+  | next (uname : Bytes)                    -- keep scanning (comparing with `uname`)
+  | done (r : Option (Bytes × Bytes))       -- stop: found (user, digest) / error
+deriving Repr
+
+/-- the hex digest field: must have the expected length, else the line is passed over -/
+def htdDigest (dlen : Nat) (pwd : Bytes) (onLen : HtdLine) (u : Bytes) : HtdLine :=
+  if (stripCR pwd).length ≠ dlen * 2 then onLen
+  else match hex2bin (stripCR pwd) with
+    | some d => .done (some (u, d))
+    | none => .done none
+
+/-- "user:realm:hex[:userhash]" looked up by user name -/
+def htdigestLineUser (realm : Bytes) (dlen : Nat) (l uname : Bytes) : HtdLine :=
+  if skipLine l then .next uname
+  else match splitFirst 58 l with
+    | none => .next uname
+    | some (u, r1) =>
+      match splitFirst 58 r1 with
+      | none => .next uname
+      | some (rl, rest) =>
+        if uname = u ∧ realm = rl then
+          htdDigest dlen (match splitFirst 58 rest with | some (p, _) => p | none => rest) (.next uname) uname
+        else .next uname
+
+/-- the same line looked up by its 4th (userhash) field; on a match the user name is
+    taken from the file (and is what later lines are compared with) -/
+def htdigestLineHash (realm : Bytes) (dlen : Nat) (l uname : Bytes) : HtdLine :=
+  if skipLine l then .next uname
+  else match splitFirst 58 l with
+    | none => .next uname
+    | some (u, r1) =>
+      match splitFirst 58 r1 with
+      | none => .next uname
+      | some (rl, rest) =>
+        match splitFirst 58 rest with
+        | none => .next uname
+        | some (pwd, uh0) =>
+          if uname = stripCR uh0 ∧ realm = rl ∧ u.length ≤ Extracted.authUserbufSize then
+            htdDigest dlen pwd (.next u) u
+          else .next uname
+
+/-- mod_authn_file_htdigest_get_loop(): (user name, binary digest) of the matching line -/
 def htdigestScan (realm : Bytes) (userhash : Bool) (dlen : Nat) : List Bytes → Bytes → Option (Bytes × Bytes)
   | [], _ => none
   | l :: ls, uname =>
-    if skipLine l then htdigestScan realm userhash dlen ls uname
-    else match splitFirst 58 l with
-      | none => htdigestScan realm userhash dlen ls uname
-      | some (u, r1) =>
-        match splitFirst 58 r1 with
-        | none => htdigestScan realm userhash dlen ls uname
-        | some (rl, rest) =>
-          let third := splitFirst 58 rest
-          if userhash then
-            match third with
-            | none => htdigestScan realm userhash dlen ls uname
-            | some (pwd, uh0) =>
-              if uname = stripCR uh0 ∧ realm = rl ∧ u.length ≤ Extracted.authUserbufSize then
-                let pwd' := stripCR pwd
-                if pwd'.length ≠ dlen * 2 then htdigestScan realm userhash dlen ls u
-                else match hex2bin pwd' with
-                  | some d => some (u, d)
-                  | none => none
-              else htdigestScan realm userhash dlen ls uname
-          else
-            if uname = u ∧ realm = rl then
-              let pwd' := stripCR (match third with | some (p, _) => p | none => rest)
-              if pwd'.length ≠ dlen * 2 then htdigestScan realm userhash dlen ls uname
-              else match hex2bin pwd' with
-                | some d => some (uname, d)
-                | none => none
-            else htdigestScan realm userhash dlen ls uname
+    match (if userhash then htdigestLineHash realm dlen l uname else htdigestLineUser realm dlen l uname) with
+    | .next u' => htdigestScan realm userhash dlen ls u'
+    | .done r => r
 
 /-- http_auth_digest_len() -/
 def digestLen (algo : Nat) : Nat :=
@@ -348,19 +365,24 @@ def backendDigest (P : Prims) (cfg : Cfg) (ai : AI) : Option AI :=
 
 /-! ### outcomes, state -/
 
-inductive Outcome
-  | pass                                               -- no rule covers the path
-  | go (user : Bytes) (digestScheme : Bool) (nextnonce : Bool)   -- served; REMOTE_USER
+/-- the ways a request is refused -/
+inductive Refusal
   | s401b (keepAlive : Bool)                           -- 401 + Basic challenge
   | s401d (staleAlgo : Nat) (keepAlive : Bool)         -- 401 + Digest challenge(s); staleAlgo ≠ 0: stale=true
   | s400
   | s500                                               -- backend missing / unusable for the scheme
 deriving DecidableEq, Repr
 
+inductive Outcome
+  | pass                                               -- no rule covers the path
+  | go (user : Bytes) (digestScheme : Bool) (nextnonce : Bool)   -- served; REMOTE_USER
+  | refuse (r : Refusal)                               -- answered by mod_auth, never served
+deriving DecidableEq, Repr
+
 def Outcome.served : Outcome → Bool
   | .pass => true
   | .go _ _ _ => true
-  | _ => false
+  | .refuse _ => false
 
 /-- http_auth_cache_entry -/
 structure Entry where
@@ -400,7 +422,7 @@ deriving Repr
 /-! ### Basic -/
 
 /-- Authorization header → (user, password), or the early answer -/
-def basicCreds (vb : Bytes) : Except Outcome (Bytes × Bytes) :=
+def basicCreds (vb : Bytes) : Except Refusal (Bytes × Bytes) :=
   if !icasePrefix vb (ofString "Basic ") then .error (.s401b true)
   else if vb.length - 6 > 1363 then .error (.s401b true)
   else
@@ -414,34 +436,36 @@ def basicEntry (ridx : Nat) (now : Int) (user pw : Bytes) : Entry :=
   { rule := ridx, ctime := now, dalgo := 0, dlen := pw.length, k := user, kIsUser := true,
     username := user, pw := pw }
 
+/-- a cache entry usable for Basic: same rule, same user name (http_auth_cache_query()
+    plus the collision checks of mod_auth_check_basic()) -/
+def basicHit (c : Cache) (key : Int) (ridx : Nat) (user : Bytes) : Option Entry :=
+  match c.lookup key with
+  | some e => if e.rule = ridx ∧ e.username = user then some e else none
+  | none => none
+
 /-- cache lookup, else backend; a successful backend answer is cached -/
 def basicAuth (P : Prims) (cfg : Cfg) (ridx : Nat) (rule : Rule) (st : St) (user pw : Bytes) : St × Bool :=
   match cfg.cacheMaxAge with
   | none => (st, backendBasic P cfg rule user pw)
   | some _ =>
-    let key := P.hash ridx user
-    let hit : Option Entry :=
-      match st.cache.lookup key with
-      | some e => if e.rule = ridx ∧ e.username = user then some e else none
-      | none => none
-    match hit with
+    match basicHit st.cache (P.hash ridx user) ridx user with
     | some e => (st, e.pw = pw)
     | none =>
       if backendBasic P cfg rule user pw then
-        ({ st with cache := st.cache.insert key (basicEntry ridx st.mono user pw) }, true)
+        ({ st with cache := st.cache.insert (P.hash ridx user) (basicEntry ridx st.mono user pw) }, true)
       else (st, false)
 
 /-- mod_auth_check_basic() -/
 def checkBasic (P : Prims) (cfg : Cfg) (ridx : Nat) (rule : Rule) (st : St) (req : Req) : St × Outcome :=
-  if cfg.backend = .none then (st, .s500) else
+  if cfg.backend = .none then (st, .refuse .s500) else
   match req.auth with
-  | none => (st, .s401b true)
+  | none => (st, .refuse (.s401b true))
   | some vb =>
     match basicCreds vb with
-    | .error o => (st, o)
+    | .error o => (st, .refuse o)
     | .ok (user, pw) =>
-      let r := basicAuth P cfg ridx rule st user pw
-      if r.2 then (r.1, .go user false false) else (r.1, .s401b false)
+      if (basicAuth P cfg ridx rule st user pw).2 then ((basicAuth P cfg ridx rule st user pw).1, .go user false false)
+      else ((basicAuth P cfg ridx rule st user pw).1, .refuse (.s401b false))
 
 /-! ### Digest: header parsing -/
 
@@ -631,7 +655,7 @@ def nonceTs (nonce : Bytes) : Int × Bytes :=
   (toInt64 r.1, r.2)
 
 /-- mod_auth_digest_validate_nonce(): `.ok nextnonce` or the answer -/
-def validateNonce (P : Prims) (rule : Rule) (epoch : Int) (nonce : Bytes) (dalgo : Nat) : Except Outcome Bool :=
+def validateNonce (P : Prims) (rule : Rule) (epoch : Int) (nonce : Bytes) (dalgo : Nat) : Except Refusal Bool :=
   let r := nonceTs nonce
   let ts := r.1
   if r.2.head? ≠ some 58 ∨ ts < 0 ∨ ts > epoch ∨ epoch - ts > 600 then .error (.s401d dalgo true)
@@ -647,33 +671,43 @@ def validateNonce (P : Prims) (rule : Rule) (epoch : Int) (nonce : Bytes) (dalgo
 
 /-! ### Digest: parameter validation -/
 
+/-- the "check for required parameters" condition -/
+def requiredPresent (dp : Params) : Bool :=
+  (dp.qop.isNone || (dp.nc.isSome && dp.cnonce.isSome))
+  && (dp.username.isSome != dp.userstar.isSome)
+  && dp.realm.isSome && dp.nonce.isSome && dp.uri.isSome && dp.response.isSome
+
+def qopAuthInt (dp : Params) : Bool :=
+  match dp.qop with
+  | some q => icaseEq q (ofString "auth-int")
+  | none => false
+
+/-- the user name the client claims: `username`, or the decoded `username*` -/
+def claimedName (dp : Params) : Option Bytes :=
+  match dp.username with
+  | some u => some u
+  | none => validateUserstar dp (dp.userstar.getD [])
+
+/-- the request's userhash flag: any 4-byte value of the parameter reads as "true" -/
+def userhashFlag (dp : Params) : Bool := (dp.userhash.map List.length) = some 4
+
 /-- mod_auth_digest_validate_params() -/
-def validateParams (rule : Rule) (req : Req) (dp : Params) : Except Outcome AI :=
-  if !((dp.qop.isNone || (dp.nc.isSome && dp.cnonce.isSome))
-       && (dp.username.isSome != dp.userstar.isSome)
-       && dp.realm.isSome && dp.nonce.isSome && dp.uri.isSome && dp.response.isSome) then .error .s400
-  else
-    let uname : Option Bytes :=
-      match dp.username with
-      | some u => some u
-      | none => validateUserstar dp (dp.userstar.getD [])
-    match uname with
+def validateParams (rule : Rule) (req : Req) (dp : Params) : Except Refusal AI :=
+  if !requiredPresent dp then .error .s400
+  else match claimedName dp with
     | none => .error .s400
     | some uname =>
-      let realm := dp.realm.getD []
-      if rule.realm ≠ realm then .error (.s401d 0 true)
+      if rule.realm ≠ dp.realm.getD [] then .error (.s401d 0 true)
       else match algorithmParse (dp.algorithm.getD []) with
         | none => .error (.s401d 0 true)
         | some (dalgo, dlen) =>
           if rule.algorithm &&& dalgo &&& 0xfffffffe = 0 then .error (.s401d 0 true)
           else if dalgo &&& Extracted.authDigestSess ≠ 0 ∧ dp.cnonce.isNone then .error .s400
-          else
-            let resp := dp.response.getD []
-            if resp.length ≠ dlen * 2 ∨ (hex2bin resp).isNone then .error .s400
-            else if (match dp.qop with | some q => icaseEq q (ofString "auth-int") | none => false) then .error .s400
-            else if req.target ≠ dp.uri.getD [] then .error .s400
-            else .ok { dalgo := dalgo, dlen := dlen, username := uname, realm := realm,
-                       userhash := (dp.userhash.map List.length) = some 4 }
+          else if (dp.response.getD []).length ≠ dlen * 2 ∨ (hex2bin (dp.response.getD [])).isNone then .error .s400
+          else if qopAuthInt dp then .error .s400
+          else if req.target ≠ dp.uri.getD [] then .error .s400
+          else .ok { dalgo := dalgo, dlen := dlen, username := uname, realm := dp.realm.getD [],
+                     userhash := userhashFlag dp }
 
 /-! ### Digest: response computation -/
 
@@ -695,10 +729,12 @@ def kd (P : Prims) (dalgo : Nat) (hA1 : Bytes) (dp : Params) (method : Bytes) : 
 
 def lowerUserhash (s : Bytes) : Bytes := s.map fun b => if isUpper b then b ||| 0x20 else b
 
-/-- the key string of the lookup: lower-cased userhash when it fits userbuf -/
-def digestKey (ai : AI) : Bytes :=
-  if ai.userhash ∧ ai.username.length ≤ Extracted.authUserbufSize then lowerUserhash ai.username
-  else ai.username
+/-- the string looked up (in the cache and at the backend) for a claimed name:
+    a userhash is lower-cased when it fits userbuf -/
+def lookupKey (userhash : Bool) (name : Bytes) : Bytes :=
+  if userhash ∧ name.length ≤ Extracted.authUserbufSize then lowerUserhash name else name
+
+def digestKey (ai : AI) : Bytes := lookupKey ai.userhash ai.username
 
 /-- is a cache entry usable for this request?  (property-conforming: entry kind
     must agree with the request's userhash flag, see file header) -/
@@ -706,39 +742,39 @@ def digestHit (ridx : Nat) (ai : AI) (user : Bytes) (e : Entry) : Bool :=
   e.rule = ridx && e.dalgo = ai.dalgo && e.dlen = ai.dlen && e.k = user
   && (e.kIsUser = !ai.userhash)
 
+def digestHitEntry (c : Cache) (key : Int) (ridx : Nat) (ai : AI) (user : Bytes) : Option Entry :=
+  match c.lookup key with
+  | some e => if digestHit ridx ai user e then some e else none
+  | none => none
+
+/-- the entry a backend answer is cached as -/
+def digestEntry (cfg : Cfg) (ridx : Nat) (now : Int) (ai : AI) (user : Bytes) (ai2 : AI) : Entry :=
+  { rule := ridx, ctime := now, dalgo := ai.dalgo, dlen := ai.dlen, k := user,
+    kIsUser := !ai.userhash || (ai.username.length > Extracted.authUserbufSize && cfg.backend = .plain),
+    username := ai2.username, pw := ai2.digest }
+
 /-- mod_auth_digest_get(): H(A1) from the cache or the backend (`none` = 401) -/
 def digestGet (P : Prims) (cfg : Cfg) (ridx : Nat) (st : St) (ai : AI) : St × Option AI :=
-  let user := digestKey ai
-  let ai1 : AI := { ai with username := user }    -- what the backend is asked about
   match cfg.cacheMaxAge with
-  | none => (st, backendDigest P cfg ai1)
+  | none => (st, backendDigest P cfg { ai with username := digestKey ai })
   | some _ =>
-    let key := P.hash ridx user
-    let hit : Option Entry :=
-      match st.cache.lookup key with
-      | some e => if digestHit ridx ai user e then some e else none
-      | none => none
-    match hit with
+    match digestHitEntry st.cache (P.hash ridx (digestKey ai)) ridx ai (digestKey ai) with
     | some e =>
       (st, some { ai with digest := e.pw,
                           username := if !e.kIsUser ∧ e.username.length ≤ Extracted.authUserbufSize
                                       then e.username else ai.username })
     | none =>
-      match backendDigest P cfg ai1 with
+      match backendDigest P cfg { ai with username := digestKey ai } with
       | none => (st, none)
       | some ai2 =>
-        let kIsUser : Bool := !ai.userhash ||
-          (ai.username.length > Extracted.authUserbufSize && cfg.backend = .plain)
-        let e : Entry :=
-          { rule := ridx, ctime := st.mono, dalgo := ai.dalgo, dlen := ai.dlen, k := user,
-            kIsUser := kIsUser, username := ai2.username, pw := ai2.digest }
-        ({ st with cache := st.cache.insert key e }, some ai2)
+        ({ st with cache := st.cache.insert (P.hash ridx (digestKey ai))
+                              (digestEntry cfg ridx st.mono ai (digestKey ai) ai2) }, some ai2)
 
 /-! ### Digest: the whole check -/
 
 /-- everything before the credential lookup (no state involved) -/
 def digestPre (P : Prims) (cfg : Cfg) (rule : Rule) (epoch : Int) (req : Req) :
-    Except Outcome (Params × AI × Bool) :=
+    Except Refusal (Params × AI × Bool) :=
   if cfg.backend ≠ .plain ∧ cfg.backend ≠ .htdigest then .error .s500 else
   match req.auth with
   | none => .error (.s401d 0 true)
@@ -752,24 +788,26 @@ def digestPre (P : Prims) (cfg : Cfg) (rule : Rule) (epoch : Int) (req : Req) :
       | .error o => .error o
       | .ok nn => .ok (dp, ai, nn)
 
+/-- does the client's `response` equal the one recomputed from H(A1) over the request's
+    own method (for an HTTP/2 extended CONNECT also: over "GET") and the digest uri -/
+def responseMatches (P : Prims) (req : Req) (dp : Params) (dalgo : Nat) (hA1 : Bytes) : Bool :=
+  hex2bin (dp.response.getD []) = some (kd P dalgo hA1 dp req.method)
+  || (req.h2ext && hex2bin (dp.response.getD []) = some (kd P dalgo hA1 dp (ofString "GET")))
+
 /-- everything after it -/
 def digestPost (P : Prims) (rule : Rule) (req : Req) (dp : Params) (ai : AI) (nn : Bool) : Outcome :=
-  let rd := hex2bin (dp.response.getD [])
-  let eq : Bool := rd = some (kd P ai.dalgo ai.digest dp req.method)
-    || (req.h2ext && rd = some (kd P ai.dalgo ai.digest dp (ofString "GET")))
-  if !eq then .s401d 0 false
-  else if !matchRules rule.req ai.username then .s401d 0 true
+  if !responseMatches P req dp ai.dalgo ai.digest then .refuse (.s401d 0 false)
+  else if !matchRules rule.req ai.username then .refuse (.s401d 0 true)
   else .go ai.username true nn
 
 /-- mod_auth_check_digest() -/
 def checkDigest (P : Prims) (cfg : Cfg) (ridx : Nat) (rule : Rule) (st : St) (req : Req) : St × Outcome :=
   match digestPre P cfg rule st.epoch req with
-  | .error o => (st, o)
+  | .error o => (st, .refuse o)
   | .ok (dp, ai, nn) =>
-    let r := digestGet P cfg ridx st ai
-    match r.2 with
-    | none => (r.1, .s401d 0 false)
-    | some ai' => (r.1, digestPost P rule req dp ai' nn)
+    match (digestGet P cfg ridx st ai).2 with
+    | none => ((digestGet P cfg ridx st ai).1, .refuse (.s401d 0 false))
+    | some ai' => ((digestGet P cfg ridx st ai).1, digestPost P rule req dp ai' nn)
 
 /-! ### the handler and the clock -/
 
@@ -809,5 +847,44 @@ def step (P : Prims) (cfg : Cfg) (st : St) : Op → St × Option Outcome
 def run (P : Prims) (cfg : Cfg) : St → List Op → St
   | st, [] => st
   | st, op :: ops => run P cfg (step P cfg st op).1 ops
+
+/-! ### specification vocabulary (what "valid credentials of an authorized user" means) -/
+
+/-- a nonce lighttpd could have issued and that has not expired: hex timestamp, ':' ,
+    not in the future, at most 600 s old; under a nonce-secret, exactly the nonce
+    mod_auth_append_nonce() builds for that timestamp and some random number -/
+def NonceFresh (P : Prims) (rule : Rule) (epoch : Int) (nonce : Bytes) : Prop :=
+  (nonceTs nonce).2.head? = some 58 ∧ 0 ≤ (nonceTs nonce).1 ∧ (nonceTs nonce).1 ≤ epoch
+  ∧ epoch - (nonceTs nonce).1 ≤ 600
+  ∧ ∀ sec, rule.secret = some sec → ∃ rnd, nonce = appendNonce P (nonceTs nonce).1 (some sec) rnd
+
+/-- valid Basic credentials for `u` under `rule`: the header decodes to `u:pw`, the
+    backend's record for `u` matches `pw` (read as a C string), and the rule authorizes `u` -/
+def BasicValid (P : Prims) (cfg : Cfg) (rule : Rule) (hdr u : Bytes) : Prop :=
+  ∃ pw, basicCreds hdr = .ok (u, pw) ∧ matchRules rule.req u = true ∧
+    match cfg.backend with
+    | .plain => htpasswdGet cfg.file u = some (cstr pw)
+    | .htdigest => ∃ name, htdigestScan rule.realm false (digestLen (rule.algorithm &&& 0xfffffffe))
+                     (fileLines cfg.file) u = some (name, ha1 P u rule.realm (cstr pw))
+    | .htpasswd => ∃ stored, htpasswdGet cfg.file u = some stored ∧ htpasswdVerify P stored (cstr pw) = true
+    | .none => False
+
+/-- valid Digest credentials for `u` under `rule` at wall-clock time `epoch`: the parameters
+    name the rule's realm and the request's own request-target, the nonce is fresh (and
+    issued under the nonce-secret), the algorithm is one the rule allows, the backend holds
+    a record (u, H(A1)) for the claimed name, the response is KD(H(A1), ...) over the
+    request's method and uri, and the rule authorizes `u` -/
+def DigestValid (P : Prims) (cfg : Cfg) (rule : Rule) (epoch : Int) (req : Req) (hdr u : Bytes) : Prop :=
+  icasePrefix hdr (ofString "Digest ") = true ∧
+  ∃ (dp : Params) (nonce : Bytes) (dalgo dlen : Nat) (name hA1 : Bytes),
+    dp = parseAuthorization (hdr.drop 7) ∧
+    dp.realm = some rule.realm ∧ dp.uri = some req.target ∧
+    dp.nonce = some nonce ∧ NonceFresh P rule epoch nonce ∧
+    algorithmParse (dp.algorithm.getD []) = some (dalgo, dlen) ∧
+    rule.algorithm &&& dalgo &&& 0xfffffffe ≠ 0 ∧
+    claimedName dp = some name ∧
+    backendLookup P cfg rule.realm (userhashFlag dp) dlen (lookupKey (userhashFlag dp) name) = some (u, hA1) ∧
+    responseMatches P req dp dalgo hA1 = true ∧
+    matchRules rule.req u = true
 
 end LtVerif.Auth
